@@ -161,6 +161,14 @@ func (g *genC18) Block(w *World, b int) Block {
 			add(mkOp("notif_create", a).withN("to", int64(pick())).withS("contents", "not json"))
 		}
 	}
+	for i := range steps {
+		if steps[i].Kind == "tx" && rng.Chance(1, 20) {
+			if steps[i].N == nil {
+				steps[i].N = map[string]int64{}
+			}
+			steps[i].N["upper"] = 1 // the same account, spelled in upper case
+		}
+	}
 	blk.Steps = g.net.Apply(rng, b, len(w.nodes), steps)
 	return blk
 }
@@ -221,7 +229,7 @@ func (o *oracleC18) compare(w *World, kind string) {
 	for _, a := range w.accts {
 		var chain []inboxEntry
 		for _, n := range w.chainInbox(a.Bech) {
-			chain = append(chain, inboxEntry{n.To, n.From, n.Time, n.Contents, string(n.PrivateContents)})
+			chain = append(chain, inboxEntry{n.To, canonAddr(n.From), n.Time, n.Contents, string(n.PrivateContents)})
 		}
 		model := o.inbox[a.Bech]
 		cm, mm := multiset(chain), multiset(model)
@@ -278,7 +286,7 @@ func (o *oracleC18) compare(w *World, kind string) {
 		}
 		for _, n := range r.Notifications {
 			if known[n.To] {
-				g = append(g, inboxEntry{n.To, n.From, n.Time, n.Contents, string(n.PrivateContents)})
+				g = append(g, inboxEntry{n.To, canonAddr(n.From), n.Time, n.Contents, string(n.PrivateContents)})
 			} else {
 				w.Violate("C18:phantom-entry:global-listing", "AllNotifications lists an entry for unknown recipient %q", n.To)
 			}
@@ -314,10 +322,10 @@ func (o *oracleC18) AfterStep(w *World, st *Step, msgs []sdk.Msg, res *abci.Resp
 				w.Violate("C18:sent-to-unresolvable", "notification to %q succeeded although the target does not resolve", m.To)
 				break
 			}
-			if o.blocked[o.preTo+"|"+m.Creator] {
+			if o.blocked[o.preTo+"|"+canonAddr(m.Creator)] {
 				w.Violate("C18:blocked-delivered", "%s is blocked by %s but its notification was accepted", m.Creator, o.preTo)
 			}
-			e := inboxEntry{o.preTo, m.Creator, w.now.UnixMicro(), m.Contents, string(m.PrivateContents)}
+			e := inboxEntry{o.preTo, canonAddr(m.Creator), w.now.UnixMicro(), m.Contents, string(m.PrivateContents)}
 			for _, x := range o.inbox[o.preTo] {
 				if x.From == e.From && x.Time == e.Time {
 					w.Probe("same_time_double_send")
@@ -347,13 +355,13 @@ func (o *oracleC18) AfterStep(w *World, st *Step, msgs []sdk.Msg, res *abci.Resp
 			}
 		case *notiftypes.MsgBlockSenders:
 			for _, b := range o.preBlk {
-				o.blocked[m.Creator+"|"+b] = true
+				o.blocked[canonAddr(m.Creator)+"|"+b] = true
 			}
 			w.Probe("block_ok")
 		}
 	}
 	if len(msgs) == 1 && res.Code != 0 {
-		if m, ok := msgs[0].(*notiftypes.MsgCreateNotification); ok && o.preOK && o.blocked[o.preTo+"|"+m.Creator] {
+		if m, ok := msgs[0].(*notiftypes.MsgCreateNotification); ok && o.preOK && o.blocked[o.preTo+"|"+canonAddr(m.Creator)] {
 			w.Probe("blocked_send_rejected")
 		}
 	}
